@@ -27,6 +27,10 @@ Polys == << <<2, -3, 1, 1>>,     \* a cubic
             <<1, 0, -2, 0>>,     \* quadratic
             <<-4, 1, 3, -1>> >>  \* another cubic
 Poly == Polys[PolyId]
+\* node spacing (resolution) per axis in quarters of a length unit: the axes have different resolutions, the lattice of
+\* axis k has N cells of width Spacing[k] / 4; everything below is in lattice indices
+Spacing == <<4, 2, 1>>
+ASSUME PrintT(ToJson([spacing |-> Spacing]))
 Axis == 0..(N - 1)
 Cells == IF Dim = 1 THEN {<<i>> : i \in Axis} ELSE IF Dim = 2 THEN {<<i, j>> : i \in Axis, j \in Axis} ELSE {<<i, j, k>> : i \in Axis, j \in Axis, k \in Axis}
 St(i) == (i - 1)..(i + 2)
